@@ -521,7 +521,9 @@ def byzantine(plugin, f, good, start, end, name, as_chunk=False):
                                target_size_mb=plugin.chunk_target_size_mb)
         if kind == "rows_outside":
             w = arr.copy() if len(arr) else make_rows(nm, [start], [start + 1], [0])
-            w["endtime"][-1] = end + 5
+            # which row sticks out: rows are sorted by start time only, so it need not be the last one
+            idx = {"first": 0, "middle": len(w) // 2, "last": len(w) - 1}[f.get("row", "last")]
+            w["endtime"][idx] = end + 5
             if as_chunk or start is None or plugin.H_NODE["kind"] == "source":
                 return plugin.chunk(start=start, end=end, data=w, data_type=nm)
             return w
@@ -539,7 +541,9 @@ def byzantine(plugin, f, good, start, end, name, as_chunk=False):
             if start <= 0:
                 plugin.H_LOG.append(("__noeffect__", nm, kind))
                 return plugin.chunk(start=start, end=end, data=arr, data_type=nm)
-            return plugin.chunk(start=start - 1, end=end, data=arr, data_type=nm)
+            # an overlapping chunk that re-delivers something: one extra row inside the overlap
+            extra = make_rows(nm, [start - 1], [start], [-1])
+            return plugin.chunk(start=start - 1, end=end, data=np.concatenate([extra, arr]), data_type=nm)
         raise ValueError(kind)
 
     if multi:
